@@ -11,6 +11,8 @@ package main
 //   enc    (S)       the same program over the same values read as ZSON, ZJSON, VNG and ZNG
 //                    (compression on/off, frame threshold 1 byte … default, end-of-stream
 //                    positions, 1..16 reader threads, read sizes) through the optimized runtime
+//   big    (S)       values of several KiB to > 512 KiB (every reader's batch byte buffer is crossed)
+//                    under operators that keep their input batches (sort, tail, collect, fuse)
 //   alias  (S)       buffer recycling: thousands of values in tiny frames, many reader threads,
 //                    type values and strings held across batches by aggregations, GC percent 1
 //   known  (S)       the recorded defect's witness
@@ -515,6 +517,9 @@ func runC04(c *Ctx) {
 	if c.Want("enc") {
 		c04Enc(c)
 	}
+	if c.Want("big") {
+		c04Big(c)
+	}
 	if c.Want("alias") {
 		c04Alias(c)
 	}
@@ -531,7 +536,7 @@ func c04Replay(c *Ctx) {
 		if json.Unmarshal(c.Replay, &cs) == nil {
 			c04BF(c, []*bfCase{&cs})
 		}
-	case "enc", "alias":
+	case "enc", "alias", "big":
 		var cs encCase
 		if json.Unmarshal(c.Replay, &cs) == nil {
 			cs.check(c)
